@@ -65,6 +65,30 @@ def build_design(s, shape, gated, enw=1, en_src='input', late=False):
         box = D.Box(s, 'box', {'a': a, 'en': e}, {'o': o}, body)
         gate(box, 'gck', e)
         return info
+    if shape == 'gated-first':
+        # the gated block is instantiated BEFORE any register of the base domain, and a block on a derived driver that has no enable
+        # (never gated) comes last: the simulator meets the gated domain first
+        e = s.wire('en', enw)
+        ins['en'] = e
+        o = s.wire('o', w)
+
+        def body(b):
+            m = b.wire('m', w)
+            Reg(b, 'g0', a, m)
+            Reg(b, 'g1', m, o)
+        box = D.Box(s, 'box', {'a': a, 'en': e}, {'o': o}, body)
+        gate(box, 'gck', e)
+        Reg(s, 'r0', a, q0)
+        q1 = s.wire('q1', w)
+        Reg(s, 'r1', o, q1)
+        u = s.wire('u', w)
+
+        def body2(b):
+            Reg(b, 'h0', q0, u)
+        box2 = D.Box(s, 'free', {'q0': q0}, {'u': u}, body2)
+        box2.clockDriver = ClockDriver('fck', base=s.clockDriver)
+        info['free'] = [('fck', box2)]       # blocks with a driver of their own that is never gated: behave like the base domain
+        return info
     Reg(s, 'r0', a, q0)
 
     if shape in ('block', 'multibit', 'inside', 'fsm'):
@@ -278,6 +302,12 @@ def gate_task(p, cfg, rec):
         dn = domain_of(leaf, info)
         drv = getObjectClockDriver(leaf)
         want = info['drvname'].get(dn, dn) if dn else 'clk'
+        for fname, fbox in info.get('free', []):
+            o_ = leaf
+            while o_ is not None:
+                if o_ is fbox:
+                    want = fname
+                o_ = o_.parent
         p.structural('driver lookup %s' % leaf.getFullPath(), drv.name == want,
                      detail={'leaf': leaf.getFullPath(), 'driver': drv.name, 'expected': want})
         if leaf.isClockable():
@@ -388,6 +418,8 @@ def cfgs(tier):
     out.append(('block enable=combinational function of a base-domain register', {'shape': 'block', 'enw': 1, 'en_src': 'combbase'}))
     out.append(('fsm enable=2-bit combinational function of a register of the gated domain', {'shape': 'fsm', 'enw': 2, 'en_src': 'comb'}))
     out.append(('only-gated enable=input', {'shape': 'only-gated', 'enw': 1, 'en_src': 'input'}))
+    out.append(('gated-first (gated block instantiated before the base-domain registers, ungated derived driver last) enable=input', {'shape': 'gated-first', 'enw': 1, 'en_src': 'input'}))
+    out.append(('gated-first enable=2-bit input', {'shape': 'gated-first', 'enw': 2, 'en_src': 'input'}))
     for shape in ('block', 'ancestor', 'nested', 'only-gated') if quick else ('block', 'fsm', 'ancestor', 'nested', 'three', 'only-gated'):
         out.append(('%s enable=input, drivers assigned after a first simulator was obtained and clocked' % shape,
                     {'shape': shape, 'enw': 1, 'en_src': 'input', 'late': True}))
@@ -403,7 +435,7 @@ def multi_cfgs(tier):
     quick = tier == 'quick'
     out = []
     for n in ((2, 3) if quick else (2, 3, 4)):
-        for shape, enw, en_src in (('block', 1, 'comb'), ('block', 1, 'combbase'), ('block', 1, 'inside'), ('block', 1, 'input'), ('leaf', 1, 'input'),
+        for shape, enw, en_src in (('block', 1, 'comb'), ('block', 1, 'combbase'), ('block', 1, 'inside'), ('block', 1, 'input'), ('leaf', 1, 'input'), ('gated-first', 1, 'input'),
                                    ('fsm', 2, 'comb'), ('nested', 1, 'input'), ('nested-chain', 1, 'input')):
             if quick and n == 3 and shape != 'block':
                 continue
